@@ -5,7 +5,7 @@
    Neighbour search (scikit-learn NearestNeighbors) is an oracle: the k-NN statement holds for any
    neighbour tables with the documented contents, which the harness certifies per run. *)
 From Coq Require Import List Arith ZArith.
-From ML Require Import Constraints C07Pairs C07Chunks C07Knn.
+From ML Require Import Constraints C07Pairs C07Chunks C07ChunksMore C07Knn.
 Import ListNotations.
 
 Definition C07_statement : Prop :=
@@ -49,9 +49,23 @@ Proof.
         (conj comb_rows_In (conj comb_rows_nodup knn_class_sound)))))).
 Qed.
 Print Assumptions C07_partial.
-(* Not mechanised (checked on every run by the correspondence instead): chunks are pairwise
-   disjoint; exactly n_chunks chunks are formed whenever max_chunks >= n_chunks. *)
+
+(* chunks are pairwise disjoint, and a feasible request yields exactly n_chunks chunks of chunk_size members *)
+Definition C07_chunks_partition_statement : Prop :=
+  forall labels n_chunks chunk_size steps assign,
+    0 < chunk_size ->
+    chunks_model labels n_chunks chunk_size steps = ChunksOk assign ->
+    NoDup (map fst assign) /\
+    (forall k, k < n_chunks -> length (filter (fun p => Nat.eqb (snd p) k) assign) = chunk_size).
+
+Theorem C07_chunks_partition : C07_chunks_partition_statement.
+Proof. exact chunks_disjoint_exact. Qed.
+Print Assumptions C07_chunks_partition.
 
 Example C07_nonvacuous :
   pairs_model [0; -1; 0; 1; 1; -1]%Z 2 true 10 [([0; 2], [1; 3])] = Some ([(0, 2); (3, 4)], false).
+Proof. vm_compute. reflexivity. Qed.
+
+Example C07_chunks_nonvacuous :
+  chunks_model [0; 0; 1; 1; 0]%Z 2 2 [Take 0 [0; 1]; Take 1 [2; 3]] = ChunksOk [(0, 0); (1, 0); (2, 1); (3, 1)].
 Proof. vm_compute. reflexivity. Qed.
